@@ -14,7 +14,7 @@ ASSUMPTIONS = [
     "can be scheduled now (or on an explicit wait action when waits are enabled)",
     "file instances: FJSP/JSSP text files written by the harness and read through the env's file generators",
 ]
-REQUIRED_COUNTERS = ["c07_stepwise_reward_sums", "c07_ffsp_multistart_rows", "episodes", "c07_schedules_checked", "c07_simulations"]
+REQUIRED_COUNTERS = ["c07_policy_rows", "c07_stepwise_reward_sums", "c07_ffsp_multistart_rows", "episodes", "c07_schedules_checked", "c07_simulations"]
 MIN_NONTRIVIAL = {"quick": 3000, "thorough": 30000}
 WORKERS = {"quick": 12, "thorough": 16}
 BUDGET_S = {"quick": 400, "thorough": 3000}
@@ -37,6 +37,12 @@ def cases(tier, seed):
         if cfg["env"] == "ffsp" and cfg.get("tmax", 6) <= 6:
             for r in range(max(2, reps // 3)):
                 out.append(dict(kind="ffsp_pomo", cfg=cfg, B=rnd.choice([1, 3, 4]), starts=rnd.choice([2, 6]), s=rnd.randrange(10**6)))
+    # the bundled scheduling policy decodes the batch (its own loop and action bookkeeping): what it RETURNS is replayed
+    for cfg in envzoo.sched_configs("quick"):
+        if cfg["env"] in ("fjsp", "jssp") and cfg.get("pmax", 9) <= 99 and not cfg.get("stepwise"):
+            for dec_ in ("greedy", "sampling"):
+                for r in range(2 if tier == "quick" else 10):
+                    out.append(dict(kind="policy", cfg=cfg, B=rnd.choice([1, 4, 7]), decode=dec_, s=rnd.randrange(10**6), wseed=r))
     # every fourth case decodes the same instance object twice without cloning it (evaluate a batch, evaluate it again):
     # the monitors watch the second episode
     for i, c_ in enumerate(out):
@@ -50,6 +56,8 @@ def cases(tier, seed):
 def run_case(ctx, case):
     from vlib import sweep
 
+    if case["kind"] == "policy":
+        return sweep.sched_policy_case(ctx, case, {"C07"})
     if case["kind"] == "ffsp_pomo":
         return sweep.ffsp_pomo_case(ctx, case, {"C07"})
     sweep.other_case(ctx, case, {"C07"})
